@@ -45,9 +45,9 @@ def vvalid (fam : Fam) (cap : Nat) (s : St) (t : Bool) : VOp → Bool
   | .eraseAt pos => fam == .sv && pos < s.sz t
   | .eraseRange f l => fam == .sv && f ≤ l && l ≤ s.sz t
   | .clear => true
-  | .resize sz | .resizev sz _ => fam == .sv && sz ≤ cap
-  | .assignn cnt _ => fam == .sv && cnt ≤ cap
-  | .assignr xs => fam == .sv && xs.length ≤ cap
+  | .resize sz | .resizev sz _ | .ctorN sz => fam == .sv && sz ≤ cap
+  | .assignn cnt _ | .ctorNV cnt _ => fam == .sv && cnt ≤ cap
+  | .assignr xs | .ctorR xs => fam == .sv && xs.length ≤ cap
   | .eraseIf md _ => fam == .sv && 0 < md && specified s.mem (baseOf cap t) (s.sz t)
   | .cctor | .mctor => true
   | .cassign | .massign | .cassignSelf | .swap | .swapSelf => fam == .sv
@@ -64,6 +64,7 @@ def svalid (fam : SFam) (cap : Nat) (s : St) (t : Bool) : SOp → Bool
   | .eraseAt pos => pos < s.sz t
   | .eraseRange f l => f ≤ l && l ≤ s.sz t
   | .extract => fam == .fs
+  | .replace xs => fam == .fs && xs.length ≤ cap
   | _ => true
 
 inductive SReach (fam : SFam) (k : Kind) (cap : Nat) : St → Prop where
